@@ -1,1 +1,61 @@
-From SP Require Import Skel.
+(* C11 -- Provenance survives restarts.
+   Models: Audit (histories of tasks over a persistent record store) and Json (the record schema as tokens and bytes). *)
+From Coq Require Import List Ascii String Arith Bool Lia.
+Import ListNotations.
+From SP Require Import Skel Gen Expected Str PathLex Audit Json JsonProofs.
+Notation length := List.length.
+
+(* T1: an IP created for an existing file loads <path>.audit.json; the audit file is written before the outputs are
+   renamed; the task that finds its outputs skips and keeps the loaded record *)
+Theorem C11_code_conforms :
+  skel_eqb skel_NewFileIP exp_NewFileIP
+  && skel_eqb skel_FileIP_AuditInfo exp_FileIP_AuditInfo
+  && skel_eqb skel_UnmarshalAuditInfoJSONFile exp_UnmarshalAuditInfoJSONFile
+  && skel_eqb skel_FileIP_WriteAuditLogToFile exp_FileIP_WriteAuditLogToFile
+  && skel_eqb skel_Task_writeAuditLogs exp_Task_writeAuditLogs
+  && skel_eqb skel_Task_Execute exp_Task_Execute
+  && skel_eqb skel_FinalizePaths exp_FinalizePaths
+  && call_before "t.writeAuditLogs" "t.finalizePaths" exp_Task_Execute = true.
+Proof. vm_compute. reflexivity. Qed.
+
+(* a run split into several runs over a persistent store: running a prefix of the tasks, keeping the records, and running
+   the rest gives on every path the record of one uninterrupted run *)
+Theorem C11_resume_keeps_records : forall (P : Type) (ts1 ts2 : list (atask P)) (x : nat),
+  get P (fold_left (exec P) ts2 (build P ts1)) x = get P (build P (ts1 ++ ts2)) x.
+Proof. exact Audit.build_resume. Qed.
+
+(* the lineage does not depend on the order in which the tasks ran: two well-ordered histories made of the same tasks --
+   an uninterrupted run, and a run that was interrupted, resumed, and scheduled differently -- record the same lineage
+   (process, command, parameters, out files of every ancestor, recursively) on every path *)
+Theorem C11_resume_same_lineage : forall (P : Type) (h1 h2 : list (atask P)),
+  WO P h1 -> WO P h2 -> (forall t, In t h1 <-> In t h2) -> forall x, lin P h1 x = lin P h2 x.
+Proof. exact Audit.lineage_order_independent. Qed.
+
+(* and what is on a path after any history is the full lineage of that path *)
+Theorem C11_store_is_lineage : forall (P : Type) (ts : list (atask P)) (x : nat), get P (build P ts) x = lin P (rev ts) x.
+Proof. exact Audit.build_is_lineage. Qed.
+
+(* writing a record and reading it back loses nothing: at the level of JSON tokens, for every record tree (any depth,
+   any maps, any strings), with any continuation *)
+Theorem C11_roundtrip_tokens : forall (r : jrec) (fuel : nat) (rest : list jtok),
+  height r <= fuel -> prec fuel (ptoks r ++ rest) = Some (r, rest).
+Proof. exact JsonProofs.prec_ptoks. Qed.
+
+(* and at the level of string literals: un-escaping an escaped string gives the string back, for every ASCII string
+   (control characters, quotes, back-slashes and the HTML-sensitive characters included) *)
+Theorem C11_roundtrip_strings : forall (s rest : str), Forall is_ascii7 s ->
+  unescape (S (length s)) (escape s ++ dq :: rest)%list = Some (s, rest).
+Proof. exact JsonProofs.unescape_escape. Qed.
+
+(* PARTIAL: the composition on bytes -- decode (jrender 0 r) = Some r for every r -- is not proved in general (the lexer's
+   treatment of the MarshalIndent layout is validated by the correspondence with encoding/json on every run); one instance: *)
+Theorem C11_roundtrip_bytes_example : decode (jrender 0 ex_rec) = Some ex_rec.
+Proof. exact JsonProofs.decode_render_example. Qed.
+
+Print Assumptions C11_code_conforms.
+Print Assumptions C11_resume_keeps_records.
+Print Assumptions C11_resume_same_lineage.
+Print Assumptions C11_store_is_lineage.
+Print Assumptions C11_roundtrip_tokens.
+Print Assumptions C11_roundtrip_strings.
+Print Assumptions C11_roundtrip_bytes_example.
